@@ -5,7 +5,7 @@
 # Writes <seed-dir>/confirm.log; prints CONFIRMED or NOT-CONFIRMED. Rust demos: demo_test.rs; JS demos: demo.js.
 set -u
 SD="$(cd "$1" && pwd)"; PF="${2:-patch.diff}"
-WT=/tmp/confirm-wt
+WT="${CONFIRM_WT:-/tmp/confirm-wt}"
 export CARGO_NET_OFFLINE=true
 export PATH="/root/.nvm/versions/node/v20.20.2/bin:$PATH"
 LOG="$SD/confirm.log"; : > "$LOG"
